@@ -84,24 +84,27 @@ type Config struct {
 	Strict    bool   // replay must match (kind,n) exactly
 	Trace     bool   // keep a log of every scheduling decision with its call site
 	MapPerm   bool   // permute map iteration order with the PRNG (else sorted)
+	StallMean int    // > 0: a goroutine other than the harness body stalls (sleeps simulated time) at about every StallMean-th scheduling point
 }
 
 type Sim struct {
-	cfg     Config
-	mu      sync.Mutex
-	gs      []gstate
-	free    []int32
-	nfree   int
-	hi      int // slots ever used
-	tab     []tabEnt
-	tmask   uint64
-	rs      uint64
-	notify  chan struct{}
-	rootG   uint64
-	seq     uint64
-	last    int
-	lastSeq uint64 // creation sequence number of the goroutine that ran last (slots are reused, sequence numbers are not)
-	buf     []int
+	cfg       Config
+	mu        sync.Mutex
+	gs        []gstate
+	free      []int32
+	nfree     int
+	hi        int // slots ever used
+	tab       []tabEnt
+	tmask     uint64
+	rs        uint64
+	notify    chan struct{}
+	rootG     uint64
+	seq       uint64
+	last      int
+	lastSeq   uint64 // creation sequence number of the goroutine that ran last (slots are reused, sequence numbers are not)
+	stallLeft int    // scheduling points until the next stall (Config.StallMean)
+	Stalls    int    // stalls injected
+	buf       []int
 
 	tape    []Draw
 	ntape   int
@@ -167,6 +170,7 @@ func New(cfg Config) *Sim {
 		tsz <<= 1
 	}
 	s := &Sim{cfg: cfg, notify: make(chan struct{}, 1), last: -1, mainID: -1}
+	s.stallLeft = cfg.StallMean
 	s.gs = make([]gstate, cfg.MaxG)
 	s.free = make([]int32, cfg.MaxG)
 	s.buf = make([]int, 0, cfg.MaxG)
@@ -662,11 +666,30 @@ func Yield() {
 	s.noteSite(id)
 	s.park(id, stParked, nil)
 	ab := s.Aborted
+	// stalled goroutine: a descheduling / GC pause / slow core that lasts long enough for timers to fire in between.
+	// Only the goroutine that is running touches stallLeft (exactly one registered goroutine runs at a time).
+	if !ab && s.cfg.StallMean > 0 && id != s.mainID {
+		s.stallLeft--
+		if s.stallLeft <= 0 {
+			s.mu.Lock()
+			s.stallLeft = 1 + s.draw(KFault, 2*s.cfg.StallMean, nil)
+			d := stallDurations[s.draw(KFault, len(stallDurations), nil)]
+			s.Stalls++
+			s.mu.Unlock()
+			raceEnable()
+			time.Sleep(d)
+			raceDisable()
+			s.park(id, stParked, nil)
+			ab = s.Aborted
+		}
+	}
 	raceEnable()
 	if ab {
 		panic(abortT{})
 	}
 }
+
+var stallDurations = []time.Duration{20 * time.Microsecond, 500 * time.Microsecond, 2 * time.Millisecond, 20 * time.Millisecond, 300 * time.Millisecond}
 
 //go:norace
 func (s *Sim) noteSite(id int) {
